@@ -145,6 +145,8 @@ type TaintOpts struct {
 	SpecFiles      []string
 	SourceMethod   string
 	SinkMethod     string
+	ImplicitFail   bool // fail-on-implicit-flow of the taint problem
+	SkipBoundLbls  bool // unsafe-skip-bound-labels of the taint problem
 }
 
 func (o TaintOpts) YAML() string {
@@ -193,6 +195,12 @@ func (o TaintOpts) YAML() string {
 		for _, s := range o.Validators {
 			fmt.Fprintf(&b, "      - method: %q\n", s)
 		}
+	}
+	if o.ImplicitFail {
+		b.WriteString("    fail-on-implicit-flow: true\n")
+	}
+	if o.SkipBoundLbls {
+		b.WriteString("    unsafe-skip-bound-labels: true\n")
 	}
 	if len(o.SpecFiles) > 0 {
 		b.WriteString("dataflow-specs:\n")
